@@ -1,33 +1,26 @@
-"""C05, observation only: one failed execution with TWO successors.
+"""C05: one failed execution, ONE successor.
 
-`_process_step_result_tick` lets one result list both leave its execution in progress (a stale `collect_events` snapshot:
-`CommandRunWorker` for the same worker, same retry number) and queue a retry of it (`CommandQueueEvent(delay=…,
-attempts+1)`).  The model has the same behaviour (`C05_refuted_failed_execution_one_successor`,
-`C05_fork_run_exceeds_budget`); the guarded statement is `C05_failed_execution_one_successor_partial`.  This module
+`_process_step_result_tick` must not let one result list both leave its execution in progress (a stale `collect_events`
+snapshot: `CommandRunWorker` for the same worker, same retry number) and queue a retry of it (`CommandQueueEvent(delay=…,
+attempts+1)`): the invocation would continue twice and run beyond its retry budget while the failure report keeps saying
+`attempts = n`.  Theorems: `C05_failed_execution_one_successor` (the reducer as it is), the reducer before the repair in
+`C05_refuted_failed_execution_one_successor_unrepaired` / `C05_fork_run_exceeds_budget_unrepaired`.
 
-* counts such ticks in the generated live runs (`Observer.monitor`, returns no violations),
-* replays the witness `harness/corpus/c05_collect_rerun_forks_retry.json` on the real engine on every run, records what
-  it does (executions of the forked input event vs. the policy's budget vs. the reported attempts) in the evidence, ties
-  the run to the runner model, and reports a divergence should the real code stop forking while the model still does.
-
-It does not add violations: the case is reported to the integrator, not registered as a finding.
+`mon_fork` states it on the real reducer's calls of every live run (signature
+`C05/failed_execution_forked:collect_rerun_and_retry`); the regression case is
+`harness/corpus/c05_collect_rerun_forks_retry.json`, and `budget_after_reruns` adds, for collecting steps, the count that
+the forked lineages broke: failed executions that were NOT followed by an in-place re-run are numbered by the engine
+1, 2, … without repetition and never exceed the policy's budget.
 """
 from __future__ import annotations
 
-import json
-import os
-from typing import Any
-
-from workflows.events import WorkflowFailedEvent
 from workflows.runtime.types import commands as C
 from workflows.runtime.types import results as R
 from workflows.runtime.types import ticks as T
 
-from ..runner import Divergence, Env, Outcome, Violation
-from . import live, monitors, suite
+from ..runner import Violation
+from . import monitors
 from .live import Trace
-
-WITNESS = os.path.join(suite.CORPUS_DIR, "c05_collect_rerun_forks_retry.json")
 
 
 def fork_ticks(tr: Trace) -> list[int]:
@@ -46,43 +39,36 @@ def fork_ticks(tr: Trace) -> list[int]:
     return hits
 
 
-class Observer:
-    def __init__(self, out: Outcome):
-        self.out = out
-
-    def monitor(self, tr: Trace) -> list[Violation]:
-        n = len(fork_ticks(tr))
-        if n:
-            self.out.count("observed:collect_rerun_and_retry_in_one_tick:runs")
-            self.out.count("observed:collect_rerun_and_retry_in_one_tick:ticks", n)
-        return []
-
-
-def witness(env: Env, out: Outcome) -> None:
-    d = json.load(open(WITNESS))
-    tr = live.run_spec(d["spec"], seed=d.get("seed", 0), replay_actions=d.get("actions"))
-    out.evaluations += 1
-    forks = fork_ticks(tr)
-    sdefs = {s["name"]: s for s in d["spec"]["steps"]}
-    worst: tuple[int, Any, list] | None = None
-    for (step, uid), execs in monitors._lineages(tr).items():
-        pol = sdefs[step].get("retry")
-        if pol is None:
+def mon_fork(tr: Trace) -> list[Violation]:
+    out: list[Violation] = []
+    hits = fork_ticks(tr)
+    if hits:
+        c = tr.calls[hits[0]]
+        uid = getattr(c.tick.event, "uid", None)
+        out.append(Violation("C05/failed_execution_forked:collect_rerun_and_retry",
+                             f"{c.tick.step_name} uid={uid}: one step result ({[type(r).__name__ for r in c.tick.result]}) both scheduled the invocation to run "
+                             f"again on a refreshed collect_events snapshot (same retry number) and queued retry "
+                             f"{[x.attempts for x in c.cmds if isinstance(x, C.CommandQueueEvent) and x.delay is not None]} of it "
+                             f"({len(hits)} such tick(s) in this run): the input event continues twice and runs beyond its retry budget", monitors._replay(tr)))
+    # the count the fork broke, on collecting steps (which mon_c05's budget rule leaves out): retries the reducer hands out for
+    # one input event carry the numbers 1, 2, … each at most once, and none beyond the budget
+    sdefs = {s["name"]: s for s in tr.spec["steps"]}
+    seen: dict[tuple, list[int]] = {}
+    for c in tr.calls:
+        if c.caller not in ("run", "_process_tick") or c.error is not None or not isinstance(c.tick, T.TickStepResult):
             continue
-        budget = monitors._budget(pol)
-        if budget is not None and (worst is None or len(execs) - budget > worst[0]):
-            worst = (len(execs) - budget, (step, uid, budget), [e[0] for e in execs])
-    reported = [e.attempts for (e, *_r) in tr.stream if isinstance(e, WorkflowFailedEvent)]
-    if not forks or worst is None or worst[0] <= 0:
-        # the model forks on this schedule (C05_fork_run_exceeds_budget); the implementation no longer does
-        out.divergences.append(Divergence("engine-fork-witness", 0, "c05_collect_rerun_forks_retry.json",
-                                          "re-run and retry issued by one tick; executions exceed the attempt budget",
-                                          f"fork ticks {forks}, executions vs budget {worst}", {"spec": d["spec"]}))
-        return
-    _over, (step, uid, budget), rns = worst
-    out.count(f"observed:witness:collect_rerun_forks_retry[budget={budget},executions={len(rns)},reported_attempts={reported[0] if reported else None}]")
-    out.notes.append(f"C05 observation (not a registered finding): {step} uid={uid} under stop_after_attempt({budget}) was executed {len(rns)} times "
-                     f"(retry numbers {rns}), WorkflowFailedEvent.attempts={reported}; {len(forks)} tick(s) issued both a re-run and a retry "
-                     f"(witness harness/corpus/c05_collect_rerun_forks_retry.json, theorem C05_refuted_failed_execution_one_successor)")
-    out.sample({"observed": "collect_rerun_forks_retry", "retry_numbers": rns, "budget": budget, "reported_attempts": reported})
-    suite.runner_corr(out, [tr], label="engine-runner-fork-witness")
+        for x in c.cmds:
+            if isinstance(x, C.CommandQueueEvent) and x.delay is not None and x.attempts:
+                seen.setdefault((c.tick.step_name, repr(getattr(c.tick.event, "uid", None))), []).append(x.attempts)
+    for (step, uid), nums in seen.items():
+        sd = sdefs.get(step)
+        if sd is None or tr.spec.get("eq_events") or tr.spec.get("_resumed") or tr.spec.get("same_uid_sends"):
+            continue
+        if not any(a[0] == "collect" for a in sd["script"]) or any(a[0] == "wait" for a in sd["script"]):
+            continue
+        budget = monitors._budget(sd.get("retry"))
+        if len(set(nums)) != len(nums) and not hits:
+            out.append(Violation("C05/retry_number_granted_twice:collecting_step", f"{step} uid={uid}: retries granted with numbers {nums}", monitors._replay(tr)))
+        elif budget is not None and nums and max(nums) >= budget and not hits:
+            out.append(Violation("C05/retry_beyond_budget:collecting_step", f"{step} uid={uid}: retry numbers {nums} under a budget of {budget} executions", monitors._replay(tr)))
+    return out
